@@ -30,6 +30,12 @@ func checkC14(c *Ctx) {
 	c.cutEdges()
 	c.avgMetricUnchanged()
 	c.cutIdsBeforeFill()
+	c.Decides("DUP-NAME: TipBag.AddTip compares the tip already recorded under a name with the tip given and returns an error when they differ (two tips with one name are not merged into one group member)")
+	c.tipBagDupName("DUP-NAME", "partitions the tips exactly into the groups connected by branches shorter than the threshold")
+	c.Floor("DUP-NAME", 1)
+	c.Decides("CMD-REACHES: in the matrix command nothing between the head of the loop over the input trees and the call of ToDistanceMatrix leaves the iteration except under an error test")
+	c.cmdReaches("CMD-REACHES", "cmd/matrix.go", []string{"ToDistanceMatrix"}, "the patristic distance matrix of a tree")
+	c.Floor("CMD-REACHES", 1)
 	c.Floor("TABLE", 5)
 	c.Floor("ORDER", 3)
 	c.Floor("LF", 3)
